@@ -716,7 +716,7 @@ func runC36(env *mc.Env) {
 	scs := scenarios()
 	bound := 1                       // cold (one process per execution) preemption bound; bound 2 is ~10^5 processes per scenario
 	nsc := mc.Pick(env, 1, len(scs)) // cold scenarios (one process per execution, ~12 executions/s on 16 cores)
-	nWarm := mc.Pick(env, len(scs), 5) // warm scenarios (in-process): all at bound 1 in quick, the first five at bound 2 in thorough
+	nWarm := mc.Pick(env, 4, len(scs)) // warm scenarios (in-process): four at bound 1 in quick (the budget), all at bound 2 (time-sliced) in thorough
 	warmBound := mc.Pick(env, 1, 2)
 	env.R.Set("preemption_bound_cold", bound)
 	env.R.Set("preemption_bound_warm", warmBound)
